@@ -24,6 +24,7 @@ import (
 	"github.com/ontio/ontology/common/constants"
 	"github.com/ontio/ontology/core/types"
 	"github.com/ontio/ontology/smartcontract/event"
+	evmsvc "github.com/ontio/ontology/smartcontract/service/evm"
 	nutils "github.com/ontio/ontology/smartcontract/service/native/utils"
 	"github.com/ontio/ontology/verifshim/vh"
 )
@@ -103,6 +104,11 @@ func c43ctorLogInit(topic ethcom.Hash) []byte {
 	return c43cat(c43push32(topic), c43push1(0), c43push1(0), []byte{c43LOG0 + 1}, c43push1(0), c43push1(0), []byte{c43RETURN})
 }
 
+// constructor that logs LOG1(topic) and reverts: the creation fails
+func c43ctorLogRevertInit(topic ethcom.Hash) []byte {
+	return c43cat(c43push32(topic), c43push1(0), c43push1(0), []byte{c43LOG0 + 1}, c43push1(0), c43push1(0), []byte{c43REVERT})
+}
+
 var (
 	c43TA = ethcrypto.Keccak256Hash([]byte("c43-topic-A"))
 	c43TB = ethcrypto.Keccak256Hash([]byte("c43-topic-B"))
@@ -118,6 +124,13 @@ type c43log struct {
 	Topics []ethcom.Hash
 }
 
+// c43rec: a log read back from the event store
+type c43rec struct {
+	c43log
+	failedTx bool // recorded for a transaction whose stored state is CONTRACT_STATE_FAIL
+	txIndex  int  // position of the transaction among the block's transactions
+}
+
 func (g c43log) String() string {
 	s := fmt.Sprintf("%x[", g.Addr[:4])
 	for _, t := range g.Topics {
@@ -127,7 +140,9 @@ func (g c43log) String() string {
 }
 
 type c43shape struct {
-	Kind   string `json:"kind"`   // log | nest | nest2 | nest-revert | revert | ctor | priced
+	// log | nest | nest2 | nest-revert | revert | ctor | priced | priced2 (successful, fee paid by key 2) | priced-nest-revert |
+	// fee-paying transactions whose EVM execution FAILS: priced-revert | priced-oog | priced-value | priced-intrinsic | priced-ctor-revert
+	Kind   string `json:"kind"`
 	N      int    `json:"n"`      // topics of the LOGn
 	Topics int    `json:"topics"` // bit i = topic i is TB (else TA)
 }
@@ -174,13 +189,23 @@ func c43allShapes() []c43shape {
 	}
 	out = append(out, c43shape{"nest2", 1, 0}, c43shape{"nest2", 1, 1}, c43shape{"nest-revert", 1, 0}, c43shape{"revert", 1, 0},
 		c43shape{"ctor", 1, 0}, c43shape{"ctor", 1, 1}, c43shape{"priced", 3, 5}, c43shape{"priced", 0, 0})
+	// fee-paying transactions whose EVM execution fails (the fee is charged and its ONG transfer log is emitted
+	// nevertheless). The sweep puts two shapes into a block: a failing tx beside a successful fee-paying tx of
+	// another sender, two failing txs, ..., and the last one alone in its block.
+	out = append(out,
+		c43shape{"priced-revert", 1, 0}, c43shape{"priced2", 1, 1},
+		c43shape{"priced-oog", 1, 0}, c43shape{"priced-value", 1, 1},
+		c43shape{"priced-intrinsic", 2, 1}, c43shape{"priced-ctor-revert", 1, 0},
+		c43shape{"priced-nest-revert", 1, 0}, c43shape{"priced2", 2, 2},
+		c43shape{"priced-revert", 1, 0})
 	return out
 }
 
 // the menu the boundary slots rotate through
 func c43menu() []c43shape {
 	return []c43shape{{"log", 0, 0}, {"log", 1, 1}, {"log", 2, 1}, {"log", 3, 6}, {"log", 4, 9}, {"nest", 2, 2}, {"nest2", 1, 1},
-		{"nest-revert", 1, 0}, {"revert", 1, 0}, {"ctor", 1, 0}, {"priced", 3, 5}, {"nest", 0, 0}, {"log", 4, 15}}
+		{"nest-revert", 1, 0}, {"revert", 1, 0}, {"ctor", 1, 0}, {"priced", 3, 5}, {"nest", 0, 0}, {"log", 4, 15},
+		{"priced-revert", 1, 0}, {"priced-oog", 1, 0}}
 }
 
 // ---- chain ----
@@ -197,10 +222,12 @@ func (y c43layout) String() string {
 }
 
 type c43block struct {
-	txs    []common.Uint256
-	expect []c43log // emitted according to EVM semantics (harness knowledge)
-	shapes []string
-	bloom  *ethtypes.Bloom // as first read back
+	txs       []common.Uint256
+	expect    []c43log // emitted by contracts according to EVM semantics (harness knowledge)
+	expectFee []c43log // ONG fee-transfer logs: one per fee-paying EVM tx, whether its execution succeeds or fails
+	wantFail  int      // EVM txs of the block whose execution must fail
+	shapes    []string
+	bloom     *ethtypes.Bloom // as first read back
 }
 
 type c43chain struct {
@@ -210,7 +237,7 @@ type c43chain struct {
 	w         c43world
 	blocks    []*c43block
 	nonce     uint32
-	ethNonce  [2]uint64
+	ethNonce  [3]uint64
 	restarted bool
 	differ    int64
 }
@@ -223,11 +250,76 @@ func (c *c43chain) viol(key string, format string, a ...interface{}) {
 }
 
 func (c *c43chain) evm(k int, to *ethcom.Address, gasPriceGwei int64, data []byte) *types.Transaction {
+	return c.evmx(k, to, gasPriceGwei, 400000, big.NewInt(0), data)
+}
+
+func (c *c43chain) evmx(k int, to *ethcom.Address, gasPriceGwei int64, gasLimit uint64, value *big.Int, data []byte) *types.Transaction {
 	key, _ := vEthKey(k)
 	price := new(big.Int).Mul(big.NewInt(gasPriceGwei), big.NewInt(constants.GWei))
-	tx := vEvmTx(key, c.ethNonce[k], to, big.NewInt(0), 400000, price, data)
+	tx := vEvmTx(key, c.ethNonce[k], to, value, gasLimit, price, data)
 	c.ethNonce[k]++
 	return tx
+}
+
+const c43GasPriceGwei = 2500
+
+var c43transferSig = ethcrypto.Keccak256Hash([]byte("Transfer(address,address,uint256)"))
+
+// c43feeLog: what StateTransition.TransitionDb emits for the fee of a fee-paying EVM transaction of key k
+// (gas price > 0, used gas > 0), after a successful and after a failed execution alike:
+// Transfer(sender, gas receiver = governance contract, fee) at the ONG contract address.
+func c43feeLog(k int) c43log {
+	_, from := vEthKey(k)
+	return c43log{c43ongAddr, []ethcom.Hash{c43transferSig, ethcom.BytesToHash(from[:]), ethcom.BytesToHash(nutils.GovernanceContractAddress[:])}}
+}
+
+// c43failing: shapes whose EVM execution fails although the transaction is valid and pays its fee
+func c43failing(kind string) bool {
+	switch kind {
+	case "priced-revert", "priced-oog", "priced-value", "priced-intrinsic", "priced-ctor-revert":
+		return true
+	}
+	return false
+}
+
+// c43txSpec: the transaction of a shape, the contract logs and the fee logs it must emit, and whether its
+// EVM execution must fail.
+type c43txSpec struct {
+	tx   *types.Transaction
+	logs []c43log
+	fee  []c43log
+	fail bool
+}
+
+func (c *c43chain) spec(s c43shape) c43txSpec {
+	w := &c.w
+	tp := s.topics()
+	fee1 := []c43log{c43feeLog(1)}
+	switch s.Kind {
+	case "priced":
+		t, e := c.tx(s)
+		return c43txSpec{t, e, fee1, false}
+	case "priced2": // successful, fee paid by key 2
+		return c43txSpec{c.evm(2, &w.logger[s.N], c43GasPriceGwei, c43words(tp)), []c43log{{w.logger[s.N], tp}}, []c43log{c43feeLog(2)}, false}
+	case "priced-nest-revert": // successful; the callee logs TC and reverts
+		data := c43cat(c43addrWord(w.reverter), c43TC[:])
+		return c43txSpec{c.evm(1, &w.nester, c43GasPriceGwei, data), []c43log{{w.nester, []ethcom.Hash{c43TN}}}, fee1, false}
+	case "priced-revert": // the whole transaction reverts after LOG1(TC)
+		return c43txSpec{c.evm(1, &w.reverter, c43GasPriceGwei, c43TC[:]), nil, fee1, true}
+	case "priced-oog": // 100 gas above the intrinsic gas: the LOGn runs out of gas
+		data := c43words(tp)
+		gas := evmsvc.IntrinsicGas(data, false, true, true) + 100
+		return c43txSpec{c.evmx(1, &w.logger[s.N], c43GasPriceGwei, gas, big.NewInt(0), data), nil, fee1, true}
+	case "priced-value": // value larger than the sender's balance
+		value := new(big.Int).Exp(big.NewInt(10), big.NewInt(24), nil) // 10^6 ONG; key 1 owns 1000
+		return c43txSpec{c.evmx(1, &w.logger[s.N], c43GasPriceGwei, 400000, value, c43words(tp)), nil, fee1, true}
+	case "priced-intrinsic": // gas limit below the intrinsic gas of the call data
+		return c43txSpec{c.evmx(1, &w.logger[s.N], c43GasPriceGwei, 21000, big.NewInt(0), c43words(tp)), nil, fee1, true}
+	case "priced-ctor-revert": // contract creation whose constructor logs and reverts
+		return c43txSpec{c.evm(1, nil, c43GasPriceGwei, c43ctorLogRevertInit(c43TC)), nil, fee1, true}
+	}
+	t, e := c.tx(s) // gas price 0: no fee log
+	return c43txSpec{t, e, nil, s.Kind == "revert"}
 }
 
 // tx builds the transaction of a shape and returns what it must emit.
@@ -238,7 +330,7 @@ func (c *c43chain) tx(s c43shape) (*types.Transaction, []c43log) {
 	case "log":
 		return c.evm(0, &w.logger[s.N], 0, c43words(tp)), []c43log{{w.logger[s.N], tp}}
 	case "priced":
-		return c.evm(1, &w.logger[s.N], 2500, c43words(tp)), []c43log{{w.logger[s.N], tp}}
+		return c.evm(1, &w.logger[s.N], c43GasPriceGwei, c43words(tp)), []c43log{{w.logger[s.N], tp}}
 	case "nest":
 		data := c43cat(c43addrWord(w.logger[s.N]), c43words(tp))
 		return c.evm(0, &w.nester, 0, data), []c43log{{w.logger[s.N], tp}, {w.nester, []ethcom.Hash{c43TN}}}
@@ -262,7 +354,7 @@ func (c *c43chain) tx(s c43shape) (*types.Transaction, []c43log) {
 	panic("shape " + s.Kind)
 }
 
-func (c *c43chain) commit(txs []*types.Transaction, expect []c43log, shapes []string) {
+func (c *c43chain) commit(txs []*types.Transaction, expect, expectFee []c43log, wantFail int, shapes []string) {
 	b := c.l.MakeBlock(txs)
 	var err error
 	if len(txs) == 0 {
@@ -272,7 +364,7 @@ func (c *c43chain) commit(txs []*types.Transaction, expect []c43log, shapes []st
 		err = c.l.AddBlock(b)
 	}
 	c.r.Need(err == nil, "fixture: AddBlock %d failed: %v (%s)", len(c.blocks), err, c.y)
-	blk := &c43block{expect: expect, shapes: shapes}
+	blk := &c43block{expect: expect, expectFee: expectFee, wantFail: wantFail, shapes: shapes}
 	for _, t := range b.Transactions {
 		blk.txs = append(blk.txs, t.Hash())
 	}
@@ -291,11 +383,13 @@ func c43bloomIdx(data []byte) [3]uint {
 
 func c43bit(bl *ethtypes.Bloom, i uint) bool { return bl[255-i/8]>>(i%8)&1 == 1 }
 
-// receipts returns the EVM logs recorded for the block's transactions.
-func (c *c43chain) receipts(h uint32) ([]c43log, int) {
-	var out []c43log
+// receipts returns the EVM logs the node SERVES for the block: every EVM log in the event store's records of
+// the block's transactions (what eth_getLogs / eth_getTransactionReceipt are answered from), of successful
+// and of failed transactions alike, and the number of EVM transactions recorded as failed.
+func (c *c43chain) receipts(h uint32) ([]c43rec, int) {
+	var out []c43rec
 	failed := 0
-	for _, th := range c.blocks[h].txs {
+	for ti, th := range c.blocks[h].txs {
 		n, err := c.l.ls.GetEventNotifyByTx(th)
 		if err != nil || n == nil {
 			continue // non-EVM or no notification: nothing recorded
@@ -309,7 +403,7 @@ func (c *c43chain) receipts(h uint32) ([]c43log, int) {
 			}
 			sl, err := event.NotifyEventInfoToEvmLog(e)
 			c.r.Need(err == nil, "decode stored evm log: %v", err)
-			out = append(out, c43log{sl.Address, sl.Topics})
+			out = append(out, c43rec{c43log{sl.Address, sl.Topics}, n.State == event.CONTRACT_STATE_FAIL, ti})
 		}
 	}
 	return out, failed
@@ -360,39 +454,78 @@ func (c *c43chain) checkBlocks() {
 			continue
 		}
 		rec, failed := c.receipts(h)
-		var contractLogs []c43log
+		var contractLogs, feeLogs []c43log
+		succeededFeeTx := map[int]bool{} // tx indexes of successful transactions with a served fee log
 		for _, g := range rec {
 			if g.Addr == c43ongAddr {
 				c.r.Class("emitter:ong-fee-transfer")
+				feeLogs = append(feeLogs, g.c43log)
+				if !g.failedTx {
+					succeededFeeTx[g.txIndex] = true
+				}
 				continue
 			}
-			contractLogs = append(contractLogs, g)
+			contractLogs = append(contractLogs, g.c43log)
 		}
-		if c43sameLogs(contractLogs, blk.expect) {
+		// harness model against what the node recorded (a difference is a harness error, not a violation)
+		if c43sameLogs(contractLogs, blk.expect) && c43sameLogs(feeLogs, blk.expectFee) && failed == blk.wantFail {
 			c.r.Class("receipt-logs:equal-evm-semantics")
 		} else {
 			c.differ++
-			c.r.Set("receipt_model_diff", fmt.Sprintf("height %d shapes %v: receipts %v, semantics %v", h, blk.shapes, contractLogs, blk.expect))
+			c.r.Set("receipt_model_diff", fmt.Sprintf("height %d shapes %v: served contract logs %v fee logs %v failed txs %d, semantics %v fee %v failed %d",
+				h, blk.shapes, contractLogs, feeLogs, failed, blk.expect, blk.expectFee, blk.wantFail))
 		}
 		if failed > 0 {
 			c.r.Class("tx:reverted")
 		}
-		miss := func(src string, g c43log) {
+		miss := func(src string, g c43log) bool {
+			ok := true
 			if !ethtypes.BloomLookup(bl, g.Addr) {
+				ok = false
 				c.viol("block-bloom:misses-address:"+src, "height %d shapes %v: address of log %s not in bloom", h, blk.shapes, g)
 			}
 			for ti, t := range g.Topics {
 				if !ethtypes.BloomLookup(bl, t) {
+					ok = false
 					c.viol(fmt.Sprintf("block-bloom:misses-topic:%s", src), "height %d shapes %v: topic %d of log %s not in bloom", h, blk.shapes, ti, g)
 				}
 			}
 			c.r.Class(fmt.Sprintf("log:LOG%d", len(g.Topics)))
+			return ok
 		}
+		// (a) every log the node serves for the block (event store records of the block's transactions),
+		// whatever the recorded state of the transaction it belongs to
 		for _, g := range rec {
-			miss("receipt-log", g)
+			if !g.failedTx {
+				miss("receipt-log", g.c43log)
+				continue
+			}
+			if miss("receipt-log-of-failed-tx", g.c43log) {
+				c.r.Class("failed-evm-tx:fee-log-in-bloom")
+				switch {
+				case len(blk.txs) == 1:
+					c.r.Class("failed-evm-tx:only-tx-of-block")
+				case len(succeededFeeTx) > 0:
+					c.r.Class("failed-evm-tx:beside-successful-fee-paying-tx")
+				}
+			}
 		}
+		// (b) every log that must have been emitted according to the harness's knowledge of the transactions
 		for _, g := range blk.expect {
 			miss("emitted-log", g)
+		}
+		for _, g := range blk.expectFee {
+			miss("emitted-fee-log", g)
+		}
+		for _, s := range blk.shapes {
+			for i := 0; i < len(s); i++ {
+				if s[i] == '/' {
+					if c43failing(s[:i]) {
+						c.r.Class("failed-evm-tx:" + s[:i])
+					}
+					break
+				}
+			}
 		}
 		if len(rec) == 0 && len(blk.expect) == 0 {
 			c.r.Class("block:txs-without-logs")
@@ -481,9 +614,14 @@ func (c *c43chain) checkSection(sec uint32) {
 	}
 	c.r.Class(fmt.Sprintf("section-%d:index-equals-block-blooms", sec))
 	c.r.Need(nonzero >= 30, "section %d has only %d non-zero bit vectors", sec, nonzero)
-	// end to end: every emitted log is found through the index
+	// end to end: every emitted log, and every log the node serves for a block of the section, is found
+	// through the index
 	for b := uint32(0); b < nb; b++ {
-		for _, g := range c.blocks[base+b].expect {
+		blk := c.blocks[base+b]
+		if len(blk.txs) == 0 {
+			continue
+		}
+		find := func(key, class string, g c43log) bool {
 			data := [][]byte{g.Addr[:]}
 			for _, t := range g.Topics {
 				data = append(data, t[:])
@@ -491,12 +629,33 @@ func (c *c43chain) checkSection(sec uint32) {
 			for _, d := range data {
 				for _, i := range c43bloomIdx(d) {
 					if got[i][b/8]>>(7-b%8)&1 != 1 {
-						c.viol("section-bits:misses-emitted-log", "section %d block %d: bit %d of log %s not set in the index", sec, base+b, i, g)
-						return
+						c.viol(key, "section %d block %d shapes %v: bit %d of log %s not set in the index", sec, base+b, blk.shapes, i, g)
+						return false
 					}
 				}
 			}
-			c.r.Class("section-lookup:log-found")
+			c.r.Class(class)
+			return true
+		}
+		for _, g := range blk.expect {
+			if !find("section-bits:misses-emitted-log", "section-lookup:log-found", g) {
+				return
+			}
+		}
+		for _, g := range blk.expectFee {
+			if !find("section-bits:misses-emitted-fee-log", "section-lookup:fee-log-found", g) {
+				return
+			}
+		}
+		rec, _ := c.receipts(base + b)
+		for _, g := range rec {
+			key, class := "section-bits:misses-receipt-log", "section-lookup:receipt-log-found"
+			if g.failedTx {
+				key, class = "section-bits:misses-receipt-log-of-failed-tx", "section-lookup:failed-tx-fee-log-found"
+			}
+			if !find(key, class, g.c43log) {
+				return
+			}
 		}
 	}
 }
@@ -532,12 +691,15 @@ func c43run(r *vh.Run, y c43layout) {
 		sweep := c43allShapes()
 		for h := uint32(1); h <= last; h++ {
 			var txs []*types.Transaction
-			var expect []c43log
+			var expect, expectFee []c43log
 			var shapes []string
+			wantFail := 0
 			if h == 1 { // setup: fund key 1, deploy the contracts (gas price 0: no fee logs)
-				_, a1 := vEthKey(1)
-				c.nonce++
-				txs = append(txs, vTransferTx(nutils.OngContractAddress, vAcct(0), common.Address(a1), 1000*1000000000, 0, 20000, c.nonce))
+				for k := 1; k <= 2; k++ { // keys 1 and 2 pay fees
+					_, ak := vEthKey(k)
+					c.nonce++
+					txs = append(txs, vTransferTx(nutils.OngContractAddress, vAcct(0), common.Address(ak), 1000*1000000000, 0, 20000, c.nonce))
+				}
 				_, from := vEthKey(0)
 				for n := 0; n <= 4; n++ {
 					c.w.logger[n] = ethcrypto.CreateAddress(from, c.ethNonce[0])
@@ -549,9 +711,13 @@ func c43run(r *vh.Run, y c43layout) {
 				txs = append(txs, c.evm(0, nil, 0, c43deploy(c43reverterCode())))
 			}
 			add := func(s c43shape) {
-				t, e := c.tx(s)
-				txs = append(txs, t)
-				expect = append(expect, e...)
+				sp := c.spec(s)
+				txs = append(txs, sp.tx)
+				expect = append(expect, sp.logs...)
+				expectFee = append(expectFee, sp.fee...)
+				if sp.fail {
+					wantFail++
+				}
 				shapes = append(shapes, s.String())
 			}
 			for i, sh := range slots {
@@ -573,7 +739,7 @@ func c43run(r *vh.Run, y c43layout) {
 			if y.Sections > 1 && h < S-2 && (h%BloomBitsBlocks == BloomBitsBlocks-1 || h%BloomBitsBlocks == 0) {
 				add(menu[int(h)%len(menu)])
 			}
-			c.commit(txs, expect, shapes)
+			c.commit(txs, expect, expectFee, wantFail, shapes)
 			if h == 1 {
 				r.Need(c.l.Ong(common.Address(func() ethcom.Address { _, a := vEthKey(1); return a }())).Sign() > 0, "funding failed")
 			}
@@ -672,7 +838,7 @@ func c43stride(in []c43layout) []c43layout {
 func TestVerif_C43(t *testing.T) {
 	r := vh.Start(t, "C43", "bloom")
 	defer r.Finish()
-	r.Rule("one real on-disk solo chain of 4101 blocks per layout (BloomBitsBlocks=4096 as shipped) = ({0,1,2} log txs at each of heights {1,4094,4095,4096,4097}, shapes rotating through a 13-entry menu) x (restart schedule); every chain also carries a sweep of all LOG0..LOG4 x all topic assignments over {A,B}, direct and through a nested caller, doubly nested, nested callee that reverts, reverted tx, constructor log, fee-paying tx (ONG transfer logs). Oracle per committed block: BloomLookup(stored bloom, x) for the address and every topic of every log (a) in the stored receipts and (b) emitted according to EVM semantics of the hand-assembled contracts; per complete section and every bit i<2048: decompressed ReadBloomBits(i,section) equals column i of the stored block blooms, and every emitted log's bits are set in the index; all repeated before and after every restart and at the tip. evaluations = block-bloom checks + section bit vectors compared")
+	r.Rule("one real on-disk solo chain of 4101 blocks per layout (BloomBitsBlocks=4096 as shipped) = ({0,1,2} log txs at each of heights {1,4094,4095,4096,4097}, shapes rotating through a 15-entry menu) x (restart schedule); every chain also carries a sweep of all LOG0..LOG4 x all topic assignments over {A,B}, direct and through a nested caller, doubly nested, nested callee that reverts, reverted tx, constructor log, fee-paying txs of two senders (ONG transfer logs), and fee-paying txs whose EVM execution fails (revert after LOG1, out of gas, value > balance, gas limit < intrinsic gas, reverting constructor; beside a successful fee-paying tx of another sender, two failing txs in a block, alone in a block): their ONG fee-transfer log is emitted and served although the tx is recorded as failed. Oracle per committed block: BloomLookup(stored bloom, x) for the address and every topic of every log (a) the node serves for the block = every EVM log in the event-store records (GetEventNotifyByTx) of the block's transactions, successful or failed, and (b) emitted according to EVM semantics of the hand-assembled contracts and the fee rule (one Transfer(sender, governance) log at the ONG address per fee-paying tx); per complete section and every bit i<2048: decompressed ReadBloomBits(i,section) equals column i of the stored block blooms, and every emitted and every served log's bits are set in the index; all repeated before and after every restart and at the tip. evaluations = block-bloom checks + section bit vectors compared")
 	r.Bound("quick: 6 layouts; thorough: 3^5 patterns x 5 restart schedules {never,4090,4094,4095,4096} + 4 two-section (8196-block) chains")
 	r.Assume("topics from {A,B}+fixed nester/ctor topics; logs carry up to 4 zero data bytes; go-ethereum's Bloom.Test and bitutil decompression are trusted")
 
@@ -712,7 +878,8 @@ func TestVerif_C43(t *testing.T) {
 	d, _ := r.R.Extra["receipt_model_differences"].(int64)
 	r.Need(d == 0 || r.R.NViolations > 0, "harness model of emitted logs differs from stored receipts in %d blocks: %v", d, r.R.Extra["receipt_model_diff"])
 	if done > 0 {
-		for _, k := range []string{"log:LOG0", "log:LOG4", "section-0:index-equals-block-blooms", "section-lookup:log-found", "receipt-logs:equal-evm-semantics", "emitter:ong-fee-transfer", "tx:reverted"} {
+		for _, k := range []string{"log:LOG0", "log:LOG4", "section-0:index-equals-block-blooms", "section-lookup:log-found", "receipt-logs:equal-evm-semantics", "emitter:ong-fee-transfer", "tx:reverted",
+			"failed-evm-tx:fee-log-in-bloom", "section-lookup:failed-tx-fee-log-found"} {
 			if r.R.Classes[k] == 0 && r.R.NViolations == 0 {
 				t.Fatalf("VERIF-INFRA non-vacuity: class %q never observed", k)
 			}
